@@ -43,6 +43,8 @@ func baseSim(r *rand.Rand, hot []string) zzsim.Config {
 		cfg.Sticky = []int{1, 3, 10}[r.IntN(3)]
 	}
 	cfg.MeanGap = []int{0, 20, 60, 200, 1000}[r.IntN(5)]
+	// the order in which the code under test meets the entries of its maps
+	cfg.MapOrder = r.IntN(2)
 	if len(hot) > 0 && r.IntN(2) == 0 {
 		cfg.HotFiles = hot
 		cfg.HotWeight = []int{5, 20}[r.IntN(2)]
